@@ -223,8 +223,6 @@ def load_known():
     out = []
     if KNOWN_FILE.exists():
         out += json.loads(KNOWN_FILE.read_text()).get("findings", [])
-    for f in sorted((VERIF / "known").glob("*.json")) if (VERIF / "known").is_dir() else []:
-        out += json.loads(f.read_text()).get("findings", [])   # per-property fragments (merged into known_findings.json by hand)
     return out
 
 
